@@ -81,5 +81,15 @@ Definition failed_unchanged_b (o : observation) : bool :=
   negb (ob_failed o || negb (ob_write o)) || forallb (fun p => negb (changedb o p)) (support o).
 Definition inputs_safe_b (o : observation) : bool :=
   ob_allow o || forallb (fun p => negb (changedb o p)) (ob_inputs o).
+(* the part of spec_inputs_safe about overwriting only (deletion of an input by
+   a rebuild is the refuted part, see Properties.v) *)
+Definition spec_inputs_not_overwritten (o : observation) : Prop :=
+  ob_allow o = false -> forall p, In p (ob_inputs o) ->
+  lookup (ob_after o) p <> None -> lookup (ob_after o) p = lookup (ob_before o) p.
+Definition inputs_not_overwritten_b (o : observation) : bool :=
+  ob_allow o || forallb (fun p => match lookup (ob_after o) p with
+                                  | None => true
+                                  | Some c => optc_eqb (Some c) (lookup (ob_before o) p)
+                                  end) (ob_inputs o).
 Definition single_valued_b (o : observation) : bool :=
   forallb (fun a => forallb (fun b => negb (path_eqb (fst a) (fst b)) || content_eqb (snd a) (snd b)) (ob_reported o)) (ob_reported o).
